@@ -320,10 +320,19 @@ def impl(c):
     ops, _ = prov.gen_adaptive(rng, c["n"], c["oidc"], c["jwt"], weights={"revokeEp": 12, "userinfo": 12}, runner=R, on_step=after)
     if CFGV[c["v"]].get("xchg"):
         # token exchange by the client with a configuration of its own, then by the others (whatever tokens there are)
+        # (fresh logins first, so that there are live access tokens whatever the generated history left behind)
+        live = []
+        for cl in ("client_2", "client_1"):
+            red = f"https://{cl}.example.com/cb"
+            r = R.op(["authorize", "diana", cl, ["openid", "email"], red])
+            if r[0] == "code" and R.op(["tokenParse", cl, r[1], red])[0] == "parsed":
+                t = R.op(["tokenProcess", len(R.pending) - 1])
+                if t[0] == "tokens" and t[1] >= 0:
+                    live.append(t[1])
         acc = [R.h[t.value] for hg, (g, path) in R.gobj.items() for t in g.issued_token if prov.CLS.get(type(t)) == "access"]
         for i, cl in enumerate(["client_2", "client_1", "client_3", "client_2", "client_1"]):
             if acc:
-                o = ["exchange", cl, rng.choice(acc), "access", rng.choice([None, "access", "refresh"]), None]
+                o = ["exchange", cl, live[i % len(live)] if live and i < 3 else rng.choice(acc), "access", rng.choice([None, "access", "refresh"]), None]
                 after(len(ops) + i, o, R.op(o), R)
     if CFGV[c["v"]].get("ri"):
         # authorization requests with a resource parameter, by each client in turn
